@@ -348,7 +348,7 @@ func (c13) Check(c *core.Case, env *core.Env, res zzsim.Result, v *core.Verdict)
 	}
 	type connWire struct {
 		regs      [2][]regReq
-		unregs    [2][]int64 // unregister requests: seq at which the client wrote them
+		unregs    [2][]int64         // unregister requests: seq at which the client wrote them
 		lateEvent [2]map[int32]int64 // event n -> seq of the unregister ack it followed
 		evCount   [2]map[int32]int   // how often event n was sent on this connection
 	}
